@@ -179,6 +179,12 @@ func c03Persisted(t *rapid.T, dir string, when string) map[string]uint64 {
 // c03StepHook, if set, is called with the number of the scheduler step about to run and the thread taking it.
 var c03StepHook func(step int, th *vhook.Thread)
 
+// c03PreemptSite: the victim of the third schedule shape is held back before every compare-and-swap and
+// before it (re-)reads the allocation limit of the shared file, i.e. wherever a retry loop samples shared state.
+func c03PreemptSite(site string) bool {
+	return strings.Contains(site, "CompareAndSwap") || strings.Contains(site, ":load32:")
+}
+
 func c03Schedule(t *rapid.T, ctl *vhook.Controller, maxSteps int, check func(step int, th *vhook.Thread)) (switches int, trace []int) {
 	// two schedule shapes: drawn (thread, burst) pairs, and a priority order with a few change points
 	pct := rapid.Bool().Draw(t, "pctSchedule")
@@ -198,6 +204,13 @@ func c03Schedule(t *rapid.T, ctl *vhook.Controller, maxSteps int, check func(ste
 		for i, d := 0, rapid.IntRange(0, 3).Draw(t, "changePoints"); i < d; i++ {
 			changeAt[rapid.IntRange(1, 400).Draw(t, "changeAt")] = true
 		}
+	}
+	// Third shape (a variant of the first): one thread is the victim; whenever it is about to perform a
+	// compare-and-swap the other threads usually move first, for a long burst, so that its retry loops
+	// meet a changed word as often as possible (lost races several times in a row within one call).
+	victim := -1
+	if !pct && rapid.IntRange(0, 2).Draw(t, "casAdversary") == 0 {
+		victim = rapid.IntRange(0, len(ctl.Threads)-1).Draw(t, "victim")
 	}
 	last := -1
 	steps := 0
@@ -228,6 +241,16 @@ func c03Schedule(t *rapid.T, ctl *vhook.Controller, maxSteps int, check func(ste
 		} else {
 			th = run[rapid.IntRange(0, len(run)-1).Draw(t, "thread")]
 			burst = rapid.SampledFrom([]int{1, 1, 2, 3, 5, 8, 20, 60}).Draw(t, "burst")
+			if th.ID == victim && len(run) > 1 && c03PreemptSite(th.Site) && rapid.IntRange(0, 3).Draw(t, "preempt") != 0 {
+				var others []*vhook.Thread
+				for _, r := range run {
+					if r.ID != victim {
+						others = append(others, r)
+					}
+				}
+				th = others[rapid.IntRange(0, len(others)-1).Draw(t, "preemptBy")]
+				burst = rapid.SampledFrom([]int{5, 20, 60, 150, 400}).Draw(t, "preemptBurst")
+			}
 		}
 		for b := 0; b < burst && !th.Done; b++ {
 			if th.ID != last {
